@@ -14,6 +14,7 @@ import (
 	"sort"
 	"strconv"
 	"strings"
+	"sync/atomic"
 	"time"
 
 	"git.arvados.org/arvados.git/internal/verifkit"
@@ -177,6 +178,7 @@ type c08World struct {
 	h       map[int]*c08Handle
 	ops     []c08Op // executed so far
 	viol    *c08Viol
+	hung    bool   // set by c09Save when a save never returned
 	stopped string // non-empty: sequence ended early without a verdict (unspecified outcome the model cannot follow)
 	baseG   int
 
@@ -503,7 +505,18 @@ func (w *c08World) quiesce() {
 
 // apply executes one operation on the real filesystem and on the model and
 // judges the result.
+// progress markers for the stall monitor of C09 (see TestVerifC09)
+var (
+	c08Progress int64
+	c08CurWorld atomic.Value // *c08World
+	c08CurOp    atomic.Value // string
+)
+
 func (w *c08World) apply(op c08Op) {
+	c08CurWorld.Store(w)
+	c08CurOp.Store(op.String())
+	atomic.AddInt64(&c08Progress, 1)
+	defer atomic.AddInt64(&c08Progress, 1)
 	w.ops = append(w.ops, op)
 	w.cnt["op_"+op.K]++
 	h := w.h[op.H]
@@ -915,6 +928,10 @@ func (w *c08World) opSave(op *c08Op) {
 // finish ends a sequence: all background work is allowed to complete and the
 // whole tree is compared.
 func (w *c08World) finish() {
+	c08CurWorld.Store(w)
+	c08CurOp.Store("final comparison and save")
+	atomic.AddInt64(&c08Progress, 1)
+	defer atomic.AddInt64(&c08Progress, 1)
 	if w.viol != nil {
 		w.quiesce()
 		return
